@@ -39,3 +39,8 @@ claim("C17", "abstract interpretation of the IR expression in Interval x exact l
       "Proves for all 2^31-2 valid states at once: no machine-width wrap, result congruent to 16807*seed modulo 2^31-1, result within [0,p] on every path (hence [1,p-1] by the primality lemma), stored state == returned value. No state is enumerated; a failed obligation is turned into a concrete seed through the modular inverse of 16807.",
       "Trusted: the lemma (p prime, re-checked arithmetically; p does not divide 16807), clang 14 front end, ir2json, the domain's transfer functions.",
       "DESIGN.md section 2 C17")
+claim("C20", "constant/congruence analysis of mlog.c over LLVM IR: residue subscripts, fold arithmetic, reader predicate and slot formula by linear entailment (Fourier-Motzkin) and residues mod N",
+      "proof",
+      "Proves for every counter value: subscripts in bounds; vmlog writes slot head mod N with fmt + 3 arguments then increments; the fold preserves the slot residue, keeps the log wrapped and head below 2^31; get_line is NULL exactly on n >= head or n >= N and otherwise addresses slot (n + [head >= N]*head) mod N; mlog_nice logs exactly while head < N; mlog_get_line/mlog_dump format the lines get_line yields in order. With the arithmetic lemma (in the check's docstring and evidence) this gives 'line k is message n-min(n,N)+k', including across the 2^31 fold.",
+      "The libc formatter's text is not decided. An mlog_dump that enumerates lines other than by get_line(0),get_line(1),.. is reported inconclusive (exit 2), not decided. Trusted: clang 14 front end, ir2json, path enumerator, lin.py.",
+      "DESIGN.md section 2 C20")
